@@ -13,6 +13,7 @@ mod c12;
 mod c13;
 mod c16;
 mod c16s;
+mod locks;
 mod probe;
 mod c19;
 mod rng;
@@ -93,6 +94,9 @@ fn main() {
         ("c16s", "gen") => c16s::gen(&args),
         ("c16s", "exec") => c16s::exec(&args),
         ("probe", "failed-open") => probe::failed_open(),
+        ("probe", "repair-then-commit") => probe::repair_then_commit(),
+        ("locks", "gen") => locks::gen(&args),
+        ("locks", "exec") => locks::exec(&args),
         ("c19", "gen") => c19::gen(&args),
         ("c19", "exec") => c19::exec(&args),
         ("c19", "child") => c19::child(&args),
